@@ -5,8 +5,8 @@
   Two levels: `…Cp` functions work on the chars view (`List Nat` of scalar values) and carry the
   algebra; the `Value`-level functions add exactly what the Rust adds around them: the argument
   type checks (`try_bytes…`, `try_integer`, `try_boolean`, every failure is the outcome `err`),
-  `from_utf8_lossy` on the way in, UTF-8 encoding on the way out, and — for the hand-written byte
-  iterator of case-insensitive `starts_with` — the panics.  An absent optional argument is `none`.
+  `from_utf8_lossy` on the way in, UTF-8 encoding on the way out; case-insensitive `starts_with`
+  has its own hand-written byte iterator instead.  An absent optional argument is `none`.
 -/
 import VrlModel.Value
 import VrlModel.Str.Case
@@ -157,12 +157,11 @@ def utf8Width (b : Nat) : Nat :=
 inductive ChItem where
   | ok (c : Nat)
   | bad
-  | panic
   deriving DecidableEq, Repr
 
 /-- `Chars::next` of starts_with.rs on the remaining bytes: item and remaining bytes.
-    Width 0 and a lead byte whose sequence runs past the end are invalid bytes (before fix they
-    panicked: `.chars().next().unwrap()` on `""`, `&bytes[pos..pos + width]` out of range). -/
+    Width 0 and a lead byte whose sequence runs past the end are invalid bytes (`Err(byte)`; before
+    30b55ac they panicked: `.chars().next().unwrap()` on `""`, `&bytes[pos..pos + width]` out of range). -/
 def charsNext (bs : List Nat) : Option (ChItem × List Nat) :=
   match bs with
   | [] => none
@@ -175,44 +174,35 @@ def charsNext (bs : List Nat) : Option (ChItem × List Nat) :=
       | [c] => some (.ok c, bs.drop w)
       | _ => some (.bad, rest)
 
-def zipAllEq : List Nat → List Nat → Bool
-  | a :: as, b :: bs => a == b && zipAllEq as bs
-  | _, _ => true
-
-/-- the closure of `starts_with` for two decoded chars. -/
+/-- the closure of `starts_with` for two decoded chars: ASCII pairs by `eq_ignore_ascii_case`,
+    otherwise the complete lower-case expansions must be equal (`a.to_lowercase().eq(b.to_lowercase())`;
+    before 2b95bd7 a truncating `zip`). -/
 def ciEq (cm : CaseMap) (a b : Nat) : Bool :=
   if a < 128 ∧ b < 128 then asciiLower a == asciiLower b
-  else zipAllEq (cm.toLower a) (cm.toLower b)
+  else cm.toLower a == cm.toLower b
 
-/-- `Chars::new(starts).zip(Chars::new(bytes)).all(..)`; `fuel` bounds the number of items
-    (`starts.length` suffices: every item consumes a byte). -/
-def ciLoop (cm : CaseMap) : Nat → List Nat → List Nat → R Bool
-  | 0, _, _ => .ok true
+/-- `let mut value = Chars::new(bytes); Chars::new(starts).all(|a| match (a, value.next()) {…})`:
+    every item of `starts` needs a matching item of `bytes`; an invalid byte on either side, or
+    `bytes` running out first, is `false`.  `fuel` bounds the number of items (`starts.length + 1`
+    suffices: every item consumes a byte). -/
+def ciAll (cm : CaseMap) : Nat → List Nat → List Nat → Bool
+  | 0, _, _ => true
   | fuel + 1, starts, bytes =>
     match charsNext starts with
-    | none => .ok true
-    | some (.panic, _) => .panic
+    | none => true
     | some (a, starts') =>
-      match charsNext bytes with
-      | none => .ok true
-      | some (.panic, _) => .panic
-      | some (b, bytes') =>
-        match a, b with
-        | .ok x, .ok y => if ciEq cm x y then ciLoop cm fuel starts' bytes' else .ok false
-        | _, _ => .ok false
+      match a, charsNext bytes with
+      | .ok x, some (.ok y, bytes') => ciEq cm x y && ciAll cm fuel starts' bytes'
+      | _, _ => false
 
-def startsWithBytes (cm : CaseMap) (cs : Bool) (bytes starts : List Nat) : R Bool :=
-  if bytes.length < starts.length then .ok false
-  else if cs then .ok (starts.isPrefixOf bytes)
-  else ciLoop cm (starts.length + 1) starts bytes
+/-- `fn starts_with(bytes, starts, case)` (no common byte-length pre-check since 2b95bd7). -/
+def startsWithBytes (cm : CaseMap) (cs : Bool) (bytes starts : List Nat) : Bool :=
+  if cs then decide (starts.length ≤ bytes.length) && starts.isPrefixOf bytes
+  else ciAll cm (starts.length + 1) starts bytes
 
 def startsWith (cm : CaseMap) (value substring : Value) (cs : Option Value) : R Value :=
   match caseArg cs, substring, value with
-  | some cs, .bytes s, .bytes v =>
-    match startsWithBytes cm cs v s with
-    | .ok b => .ok (.bool b)
-    | .err => .err
-    | .panic => .panic
+  | some cs, .bytes s, .bytes v => .ok (.bool (startsWithBytes cm cs v s))
   | _, _, _ => .err
 
 /-! ### upcase / downcase on values -/
